@@ -73,8 +73,8 @@ Bad(why, strict) == [st |-> "bad", why |-> why, strict |-> strict]
 Undef == [st |-> "undef", strict |-> FALSE]
 
 (* [set]: the union of its elements: ranges x-y, classes %x, escaped and plain characters; [^set] the complement. *)
-(* j: index of the next element; first: nothing consumed yet (the reference implementation then takes "]"       *)
-(* as a plain character; the manual does not say).  Returns [st, set, next, strict].                            *)
+(* j: index of the next element; first: nothing consumed yet (a "]" there is a member of the set).             *)
+(* Returns [st, set, next, strict].                                                                             *)
 RECURSIVE SetElems(_, _, _, _, _)
 SetElems(p, j, first, acc, strict) ==
   IF j > Len(p) THEN Bad(1, TRUE)                                      \* missing "]"
@@ -92,7 +92,10 @@ SetElems(p, j, first, acc, strict) ==
     IF p[j + 2] = "%" THEN Undef
     ELSE SetElems(p, j + 3, FALSE, acc \cup {c \in Univ : Ord[p[j]] <= Ord[c] /\ Ord[c] <= Ord[p[j + 2]]},
                   strict /\ p[j] \notin {"]", "-"})
-  ELSE SetElems(p, j + 1, FALSE, acc \cup {p[j]}, strict /\ p[j] \notin {"]", "-"})
+  ELSE SetElems(p, j + 1, FALSE, acc \cup {p[j]},
+                \* 6.4.1: "You can put a closing square bracket in a set by positioning it as the first character in the
+                \* set.  You can put a hyphen in a set by positioning it as the first or the last character in the set."
+                strict /\ (p[j] = "]" => first) /\ (p[j] = "-" => (first \/ (j + 1 <= Len(p) /\ p[j + 1] = "]"))))
 
 (* p[i] = "[" *)
 ParseSet(p, i) ==
